@@ -1,4 +1,4 @@
-import Rare.Proofs.C14RenderU
+import Rare.Proofs.C14KeyCol
 import Rare.Gen.C14
 /-!
 # C14 – Renderers never crash and draw quantities proportionally within bounds
@@ -8,7 +8,8 @@ b2c2a9f (stacked bars, running maximum 0), 7206d40 (bar length overflow), 0b7fa0
 negative values), a20c03a (aliased value slices), b1ca348 (heatmap header loop), 9780d5d (spark with
 no columns), 6408ebf (inverted remapped range), c54b92c (sparkline header measured in bytes),
 73473fc (reduce table: group key with more parts than group columns), 7b183e0 (histogram refresh skipped
-rows with a value ≤ 0).
+rows with a value ≤ 0), f0d0278 (histogram / bar graph key column padded in runes but measured in visible characters),
+cde79bf (bar graph: a key that widens the key column did not re-draw the rows already written).
 
 Numbers: the model is polymorphic in the `float64` operations (`Arith α`).  Two instances carry theorems:
 ℚ (`ratArith L2 L10`: exact conversion and `+ - * /`, abstract logarithms only assumed monotone and
@@ -94,6 +95,26 @@ theorem scale_code_matches_source :
     Gen.C14.mapLog10Body = ["if f <= 1.0 { return 0.0 }", "return math.Log10(f)"] ∧
     Gen.C14.histoFullRenderBody = ["for idx, item := range s.items { if item.set { s.writeLine(idx, item.key, item.val) } }"] := by
   decide
+
+/-- the code of the key column is the modelled one (printed statements, regenerated on every run): `padVisible` pads by
+`color.StrLen` (`padVis`); the three key cells are `color.Wrap(color.Yellow, padVisible(key, <column width>))`;
+`HistoWriter.WriteForLine` widens `textSpacing` by `color.StrLen(key)` and re-renders everything when the key column or the
+maximum grew; `BarGraph.WriteBar` sets `redraw` when `color.StrLen(key)` widens `maxKeyLength` (cde79bf) or the row raises
+the running maximum, and then re-draws every stored row -/
+theorem key_column_code_matches_source :
+    Gen.C14.padVisibleBody = ["if pad := width - color.StrLen(s); pad > 0 { return s + strings.Repeat(\" \", pad) }", "return s"] ∧
+    Gen.C14.keyCellCalls = ["color.Wrap(color.Yellow, padVisible(key, s.textSpacing))", "color.Wrap(color.Yellow, padVisible(key, s.maxKeyLength))",
+      "color.Wrap(color.Yellow, padVisible(key, s.maxKeyLength))"] ∧
+    Gen.C14.histoWriteForLineBody = ["if line > len(s.items) { return }", "needsFullRefresh := false",
+      "if klen := color.StrLen(key); klen > s.textSpacing { s.textSpacing = klen needsFullRefresh = true }",
+      "if val > s.maxVal { s.maxVal = val needsFullRefresh = true }", "s.items[line] = histoPair{ key: key, val: val, set: true, }",
+      "if needsFullRefresh { s.fullRender() } else { s.writeLine(line, key, val) }"] ∧
+    Gen.C14.barsWriteBarBody = ["redraw := false", "if klen := color.StrLen(key); klen > s.maxKeyLength { s.maxKeyLength = klen redraw = true }",
+      "for idx >= len(s.rows) { s.rows = append(s.rows, barGraphPair{}) }",
+      "s.rows[idx] = barGraphPair{ name: key, vals: append([]int64(nil), vals...), }",
+      "{ var max int64 if s.Stacked { max = sumPositive(vals...) } else { max = maxi64(vals...) } if max > s.maxLineVal { s.maxLineVal = max redraw = true } }",
+      "if redraw { for idx, row := range s.rows { s.writeBar(idx, row.name, row.vals...) } } else { s.writeBar(idx, key, vals...) }"] := by
+  refine ⟨by decide +kernel, by decide +kernel, by decide +kernel, by decide +kernel⟩
 
 /-! ## scaler laws (∀ val, min, max) -/
 
@@ -437,7 +458,7 @@ starts with the padded key and `Formatter(count, 0, maxVal)` for the CURRENT run
 theorem histo_line_number {L2 L10 : Rat → Rat} (h2 : LogLike L2) (h10 : LogLike L10) (env : Env) (h : Histo) (vt : VirtualTerm)
     (ho : vt.closed = false) (line : Nat) (key : Bytes) (val : Int) :
     ∃ vt' tail, h.writeLine (ratArith L2 L10) env vt (line : Int) key val = .ok vt' ∧ vt'.closed = false ∧
-      vt'.lines[line]? = some (wrap env cYellow (padRight key h.textSpacing) ++ ascii "    " ++
+      vt'.lines[line]? = some (wrap env cYellow (padVis env key h.textSpacing) ++ ascii "    " ++
         padRight (h.fmt.apply val 0 h.maxVal) 10 ++ tail) ∧
       (∀ j x, j ≠ line → vt.lines[j]? = some x → vt'.lines[j]? = some x) :=
   histo_writeLine_ok h2 h10 env h vt ho line key val
@@ -533,7 +554,7 @@ line ends with the bar `BarWrite(Scale(value, 0, maxVal), 50)` for that same max
 theorem histo_rows_current_scale {α : Type} {A : Arith α} {Dom : Int → Prop} {Unit : α → Prop} {le : α → α → Prop} (U : UnitLaws A Dom Unit le)
     (env : Env) (h : Histo) (vt : VirtualTerm) (hinv : HistoInv A Dom env h vt) (i : Nat) (key : Bytes) (val : Int)
     (hi : h.items[i]? = some (some (key, val))) :
-    ∃ tail, vt.lines[i]? = some (wrap env cYellow (padRight key h.textSpacing) ++ ascii "    " ++
+    ∃ tail, vt.lines[i]? = some (wrap env cYellow (padVis env key h.textSpacing) ++ ascii "    " ++
         padRight (h.fmt.apply val 0 h.maxVal) 10 ++ tail) ∧
       val ≤ h.maxVal ∧ strLen env key ≤ h.textSpacing ∧
       (h.showBar = true ∧ h.maxVal > 0 → ∃ mid glyphs, tail = mid ++ [32] ++ colorWrite env cBlue (glyphs.flatMap encodeRune) ∧
@@ -586,8 +607,10 @@ rows in order, as `cmd/bargraph.go` does) from ANY state in which the running ma
 (`BarPre`: a new graph, or the state after ANY NUMBER of earlier renders – also with fewer sub-keys): it returns,
 `BarPre` holds again, the running maximum only grew, and EVERY row of this render is stored and drawn
 (`RowDrawn`, see `bars_drawn_row_shape`) with the FINAL running maximum – whichever `WriteBar` calls raised the
-maximum and redrew the graph on the way: the bars of one graph are proportional to each other and every
-number is `Formatter(value, 0, final max)`.  Grouped rows have at most one value per sub-key. -/
+maximum or widened the key column and redrew the graph on the way (cde79bf): the bars of one graph are proportional
+to each other, every number is `Formatter(value, 0, final max)`, and every row is drawn with the ONE final key column
+width `g'.cfg.keyw = maxKeyLength`, which covers the key of every row of the render (`bars_key_column_aligned` turns
+this into visible offsets).  Grouped rows have at most one value per sub-key. -/
 theorem bars_render_current_scale {α : Type} {A : Arith α} {Dom : Int → Prop} {Unit : α → Prop} {le : α → α → Prop} (U : UnitLaws A Dom Unit le)
     (env : Env) (g : BarGraph) (vt : VirtualTerm) (hpre : BarPre Dom g vt) (subKeys : List Bytes) (rows : List (Bytes × List Int))
     (hrows : ∀ row ∈ rows, (∀ v ∈ row.2, Dom v) ∧ (g.stacked = true ∨ row.2.length ≤ subKeys.length))
@@ -597,7 +620,8 @@ theorem bars_render_current_scale {α : Type} {A : Arith α} {Dom : Int → Prop
       (∀ (i : Nat) (row : Bytes × List Int), rows[i]? = some row → g'.rows[i]? = some row ∧ RowDrawn A env g'.cfg vt' i row) ∧
       g'.cfg.stacked = g.stacked ∧ g'.cfg.nsub = subKeys.length ∧ g'.cfg.scaler = g.scaler ∧ g'.cfg.fmt = g.fmt ∧
       g'.cfg.barSize = g.barSize ∧ g'.cfg.max = g'.maxLineVal ∧ g.maxLineVal ≤ g'.maxLineVal ∧
-      (g'.cfg.first = g.prefixLines.toNat ∨ g'.cfg.first = 1) :=
+      (g'.cfg.first = g.prefixLines.toNat ∨ g'.cfg.first = 1) ∧
+      g'.cfg.keyw = g'.maxKeyLength ∧ g.maxKeyLength ≤ g'.maxKeyLength ∧ (∀ row ∈ rows, strLen env row.1 ≤ g'.maxKeyLength) :=
   bars_render_inv U env g vt hpre subKeys rows hrows N hN hgeo
 
 /-- what `RowDrawn` says, spelled out.  Stacked: the row's one line is the key, the bar
@@ -607,28 +631,29 @@ the indentation, the bar `BarWrite(Scale(values[j], 0, max), BarSize)` – at mo
 theorem bars_drawn_row_shape {α : Type} {A : Arith α} {Dom : Int → Prop} {Unit : α → Prop} {le : α → α → Prop} (U : UnitLaws A Dom Unit le)
     (env : Env) (c : BarCfg) (vt : VirtualTerm) (i : Nat) (row : Bytes × List Int) (h : RowDrawn A env c vt i row)
     (hd : ∀ v ∈ row.2, Dom v) (hm : Dom c.max) (hb : 0 ≤ c.barSize) (hb' : c.barSize ≤ 1000000000000000) :
-    (c.stacked = true → ∃ w bar, vt.lines[c.first + i]? = some (wrap env cYellow (padRight row.1 w) ++ ascii "  " ++ bar ++ ascii "  " ++
+    (c.stacked = true → ∃ bar, vt.lines[c.first + i]? = some (wrap env cYellow (padVis env row.1 c.keyw) ++ ascii "  " ++ bar ++ ascii "  " ++
         c.fmt.apply (sumWrap row.2) 0 c.max) ∧ barWriteStacked env c.max c.barSize row.2 = .ok bar) ∧
-    (c.stacked = false → ∀ (j : Nat) (v : Int), row.2[j]? = some v → ∃ pre glyphs,
-        vt.lines[c.first + i * c.nsub + j]? = some (pre ++ colorWrite env (groupColors.getD (j % groupColors.length) []) (glyphs.flatMap encodeRune) ++
+    (c.stacked = false → ∀ (j : Nat) (v : Int), row.2[j]? = some v → ∃ glyphs,
+        vt.lines[c.first + i * c.nsub + j]? = some ((if j > 0 then spaces (c.keyw + 2) else wrap env cYellow (padVis env row.1 c.keyw) ++ ascii "  ") ++
+          colorWrite env (groupColors.getD (j % groupColors.length) []) (glyphs.flatMap encodeRune) ++
           [32] ++ c.fmt.apply v 0 c.max) ∧
         barWriteR A env (scale A c.scaler v 0 c.max) c.barSize = .ok glyphs ∧ (glyphs.length : Int) ≤ c.barSize) := by
   unfold RowDrawn at h
   constructor
   · intro hs
     rw [if_pos hs] at h
-    obtain ⟨w, hw⟩ := h
+    have hw := h
     obtain ⟨bar, hbar⟩ := barWriteStacked_ok env c.max c.barSize row.2
-    refine ⟨w, bar, ?_, hbar⟩
+    refine ⟨bar, ?_, hbar⟩
     have e : c.rowStart i = c.first + i := by simp [BarCfg.rowStart, BarCfg.slot, hs]
     rw [← e, hw]
     unfold BarCfg.stackedText
     simp only [hbar]
   · intro hs j v hj
     rw [if_neg (by simp [hs])] at h
-    obtain ⟨w, hw⟩ := h j v hj
+    have hw := h j v hj
     obtain ⟨rs, h1, h2, _, h4⟩ := bars_bar_shape U env c v (hd v (List.mem_of_getElem? hj)) hm hb hb'
-    refine ⟨(if j > 0 then spaces (w + 2) else wrap env cYellow (padRight row.1 w) ++ ascii "  "), rs, ?_, h1, h4⟩
+    refine ⟨rs, ?_, h1, h4⟩
     have e : c.rowStart i = c.first + i * c.nsub := by simp [BarCfg.rowStart, BarCfg.slot, hs]
     rw [← e, hw]
     unfold BarCfg.groupedText
@@ -666,6 +691,75 @@ theorem heat_row_visible_width {α : Type} {A : Arith α} {Dom : Int → Prop} {
       strLen env line = h'.maxRowKeyWidth + 1 + vals.length ∧
       (∀ j x, j ≠ 2 + idx → vt.lines[j]? = some x → vt'.lines[j]? = some x) :=
   heat_writeRow_width U env h vt ho idx name vals ht hd hmn hmx
+
+/-! ## the key column of the histogram and the bar graph lines up (f0d0278, cde79bf)
+
+Widths are in the unit the code counts: `color.StrLen` (runes outside colour sequences; a double-width rune is one).
+`StartsAt env line off rest`: `line = pre ++ rest` with `pre` exactly `off` cells wide and not ending inside a colour sequence.
+Keys are arbitrary bytes (multi-byte, truncated UTF-8, with colour sequences such as `{color red {1}}` produces); the only
+proviso is `Terminated`: the key does not END inside a colour sequence (`key_column_unterminated_counterexample`). -/
+
+/-- THE KEY CELL of a histogram / bar graph line: the coloured key padded with `padVisible` to the key column width `w` and
+followed by `gap ≥ 1` blanks is EXACTLY `w + gap` cells wide, for every key at most `w` wide; `padVisible` itself gives
+`max(w, StrLen(key))` cells -/
+theorem key_cell_width (env : Env) (key : Bytes) (w : Int) (gap : Nat) (ht : Terminated env key) :
+    strLen env (padVis env key w) = (if strLen env key ≤ w then w else strLen env key) ∧
+    (strLen env key ≤ w → strLen env (wrap env cYellow (padVis env key w) ++ List.replicate (gap + 1) (32 : UInt8)) = w + (gap + 1 : Nat)) :=
+  ⟨(padVis_props env key w ht).1, fun hw => (keyCell_width env key w gap ht hw).1⟩
+
+/-- `histo_key_column_aligned`: in EVERY state the histogram can reach (`HistoInv`: a new histogram after any sequence of
+`WriteForLine` / `UpdateTotal` calls, `histo_redraw_invariant`), the number of EVERY written line starts at the same visible
+offset `textSpacing + 4` – the current key column width, which covers every key – whatever keys were written in whatever
+order (a longer key re-draws all lines) -/
+theorem histo_key_column_aligned {α : Type} {A : Arith α} {Dom : Int → Prop} (env : Env) (h : Histo) (vt : VirtualTerm)
+    (hinv : HistoInv A Dom env h vt) (i : Nat) (key : Bytes) (val : Int) (hi : h.items[i]? = some (some (key, val)))
+    (ht : Terminated env key) :
+    ∃ line tail, vt.lines[i]? = some line ∧ StartsAt env line (h.textSpacing + 4) (h.fmt.apply val 0 h.maxVal ++ tail) := by
+  obtain ⟨tail, hs⟩ := histo_line_number_at env h key val A ht (hinv.key_cover i key val hi)
+  exact ⟨_, tail, hinv.drawn i key val hi, hs⟩
+
+/-- `bars_key_column_aligned`: on every line of a drawn row (`RowDrawn`, e.g. every row of a render, `bars_render_current_scale`)
+whose key the key column covers, the bar starts at visible offset `keyw + 2`: after the padded key on the first line,
+after the indentation on the lower lines of a grouped row -/
+theorem bars_key_column_aligned {α : Type} {A : Arith α} (env : Env) (c : BarCfg) (vt : VirtualTerm) (i : Nat) (row : Bytes × List Int)
+    (h : RowDrawn A env c vt i row) (ht : Terminated env row.1) (hw : strLen env row.1 ≤ c.keyw) (h0 : 0 ≤ c.keyw) :
+    (c.stacked = true → ∃ line, vt.lines[c.rowStart i]? = some line ∧ StartsAt env line (c.keyw + 2) (c.stackedRest env row.2)) ∧
+    (c.stacked = false → ∀ (j : Nat) (v : Int), row.2[j]? = some v →
+      ∃ line, vt.lines[c.rowStart i + j]? = some line ∧ StartsAt env line (c.keyw + 2) (c.groupedRest A env j v)) :=
+  bars_row_key_column env c vt i row h ht hw h0
+
+/-- `bars_render_aligned`: ONE RENDER of `rare bars` from any state `BarPre` (a new graph, or after any number of renders): EVERY
+line of EVERY row of the render has its bar at the ONE visible offset `maxKeyLength' + 2` of the final state – whichever
+row brought the longest key and wherever it stood in the order (before cde79bf the rows written before it kept the
+narrower column until the next render; with `--snapshot` or piped output there is none) -/
+theorem bars_render_aligned {α : Type} {A : Arith α} {Dom : Int → Prop} {Unit : α → Prop} {le : α → α → Prop} (U : UnitLaws A Dom Unit le)
+    (env : Env) (g : BarGraph) (vt : VirtualTerm) (hpre : BarPre Dom g vt) (subKeys : List Bytes) (rows : List (Bytes × List Int))
+    (hrows : ∀ row ∈ rows, (∀ v ∈ row.2, Dom v) ∧ (g.stacked = true ∨ row.2.length ≤ subKeys.length))
+    (hterm : ∀ row ∈ rows, Terminated env row.1)
+    (N : Nat) (hN : g.rows.length + rows.length ≤ N)
+    (hgeo : g.prefixLines.toNat + 1 + (N + 1) * (subKeys.length + 1) < 4611686018427387904) :
+    ∃ g' vt', g.writeOutput A env vt subKeys rows = .ok (g', vt') ∧
+      ∀ (i : Nat) (row : Bytes × List Int), rows[i]? = some row →
+        (g.stacked = true → ∃ line, vt'.lines[g'.cfg.rowStart i]? = some line ∧
+          StartsAt env line (g'.maxKeyLength + 2) (g'.cfg.stackedRest env row.2)) ∧
+        (g.stacked = false → ∀ (j : Nat) (v : Int), row.2[j]? = some v →
+          ∃ line, vt'.lines[g'.cfg.rowStart i + j]? = some line ∧ StartsAt env line (g'.maxKeyLength + 2) (g'.cfg.groupedRest A env j v)) := by
+  obtain ⟨g', vt', h1, hpre', hdr, hst, _, _, _, _, _, _, _, hkw, _, hcov⟩ := bars_render_inv U env g vt hpre subKeys rows hrows N hN hgeo
+  refine ⟨g', vt', h1, ?_⟩
+  intro i row hi
+  have hmem := List.mem_of_getElem? hi
+  have key := bars_row_key_column env g'.cfg vt' i row (hdr i row hi).2 (hterm row hmem) (by rw [hkw]; exact hcov row hmem)
+    (by rw [hkw]; exact hpre'.key_nonneg)
+  rw [hkw] at key
+  rw [← hst]
+  exact key
+
+/-- the boundary of the class: a key that ENDS INSIDE a colour sequence (`ESC [ 3`, never produced by `{color …}`, which always
+resets) swallows the padding in `StrLen`'s own scan: its padded cell is not `16 + 4` wide -/
+theorem key_column_unterminated_counterexample :
+    strLen ⟨true, true⟩ (27 :: ascii "[3") = 0 ∧ ¬ Terminated ⟨true, true⟩ (27 :: ascii "[3") ∧
+    strLen ⟨true, true⟩ (wrap ⟨true, true⟩ cYellow (padVis ⟨true, true⟩ (27 :: ascii "[3") 16) ++ ascii "    ") ≠ 16 + 4 :=
+  keyCell_unterminated_counterexample
 
 /-! ## heatmap and sparkline as whole renderers -/
 
@@ -854,6 +948,18 @@ example : (do let r ← BarGraph.writeOutput (f64Arith id id id id) ⟨false, fa
     = some ([0, 12, 50], 8) := by decide +kernel
 example : Terminated ⟨true, true⟩ [0xe6, 0x97, 0xa5] ∧ Terminated ⟨true, true⟩ (27 :: ascii "[31mred" ++ 27 :: ascii "[0m") := by
   constructor <;> intro _ <;> decide +kernel
+
+/-- the key column at work (colour on): a plain key and a key coloured by `{color red …}` are both padded to 16 visible cells
+(`%-16s` counted the 9 runes of the colour codes: 7 cells) -/
+example : strLen ⟨true, true⟩ (wrap ⟨true, true⟩ cYellow (padVis ⟨true, true⟩ (ascii "abc") 16)) = 16 ∧
+    strLen ⟨true, true⟩ (wrap ⟨true, true⟩ cYellow (padVis ⟨true, true⟩ (cRed ++ ascii "abc" ++ cReset) 16)) = 16 ∧
+    strLen ⟨true, true⟩ (wrap ⟨true, true⟩ cYellow (padRight (cRed ++ ascii "abc" ++ cReset) 16)) = 7 := by decide +kernel
+/-- a render in `--sort value` order: the short key `b` (value 5) is written first, then `abcdefghij` (value 1) widens the key
+column and `b` is re-drawn (cde79bf): both bars start in column 12 -/
+example : (do let r ← BarGraph.writeOutput (f64Arith id id id id) ⟨false, false⟩ { barSize := 50, scaler := Scaler.linear, fmt := Fmt.raw } VirtualTerm.new [ascii "x"]
+                [(ascii "b", [5]), (ascii "abcdefghij", [1])]
+              pure (r.2.lines.drop 1 |>.map (fun l => (l.takeWhile (· != 124)).length), r.1.maxKeyLength) : Res (List Nat × Int)).toOption
+    = some ([12, 12], 10) := by decide +kernel
 
 example : DomCells I64 (Cells.sample [] 0 0 1700000000000000000) := sampled_cells_int64 [] (by intro e he; cases he) 0 0 _
 /-- the state of the seeded demo (one cell, 1.7e18, linear scale) on binary64: the heatmap renders; its one cell is the lowest colour -/
